@@ -34,7 +34,7 @@ ONE = 1.0 - 2.0 ** -53
 
 
 def plan(tier):
-    return [('seeded', 2500 if tier == 'quick' else 120000)]
+    return [('seeded', 6000 if tier == 'quick' else 120000)]
 
 
 def make_case(family, i, rng, tier):
